@@ -383,8 +383,7 @@ def check_metadata(ctx, r):
             v = rt.value
             if isinstance(v, ast.Call) and isinstance(v.func, ast.Name) and v.func.id == ctor_name[kind] and len(v.args) == 1:
                 inner = v.args[0]
-                if isinstance(inner, ast.Call) and isinstance(inner.func, ast.Name) and inner.func.id == "jaxtyped" and inner.args \
-                        and norm(inner.args[0]) == "fn.__func__" and any(k.arg == "typechecker" and norm(k.value) == "typechecker" for k in inner.keywords):
+                if _is_rewrap(m, jt, inner, "fn.__func__"):
                     ok = True
         if ok:
             ctx.ok("C07.4", jt.qualname, f"{kind}: rebuilt as {kind}(jaxtyped(fn.__func__, typechecker=typechecker))")
@@ -426,14 +425,30 @@ def check_metadata(ctx, r):
                 for s in flat:
                     if isinstance(s, ast.Constant) and s.value is None:
                         continue
-                    good = (isinstance(s, ast.Call) and isinstance(s.func, ast.Name) and s.func.id == "jaxtyped" and s.args
-                            and norm(s.args[0]) == f"fn.{acc}" and any(k.arg == "typechecker" and norm(k.value) == "typechecker" for k in s.keywords))
+                    good = _is_rewrap(m, jt, s, f"fn.{acc}")
                     if not good:
                         ok_all = False
                         ctx.bad("C07.4", jt, rt, f"property accessor `{acc}` is built from `{norm(s)}` instead of jaxtyped(fn.{acc}, typechecker=typechecker)",
                                 construct=f"property {acc} <- {norm(s)}")
         if ok_all:
             ctx.ok("C07.4", jt.qualname, "property: each of fget/fset/fdel is derived from the same-named accessor")
+
+
+def _is_rewrap(m, jt, e, argtext: str) -> bool:
+    """`jaxtyped(<arg>, typechecker=typechecker)`, also through a local bound once to
+    `functools.partial(jaxtyped, typechecker=typechecker)`."""
+    if not (isinstance(e, ast.Call) and len(e.args) == 1 and norm(e.args[0]) == argtext):
+        return False
+    if isinstance(e.func, ast.Name) and e.func.id == "jaxtyped":
+        return any(k.arg == "typechecker" and norm(k.value) == "typechecker" for k in e.keywords)
+    if isinstance(e.func, ast.Name) and not e.keywords:
+        defs = c05._assignments_to(jt, e.func.id)
+        if len(defs) == 1 and defs[0][2] is None and isinstance(defs[0][1], ast.Call):
+            p_ = defs[0][1]
+            t = m.resolve_call(jt, p_)
+            if t.kind == "ext" and t.target == "functools.partial" and len(p_.args) == 1 and norm(p_.args[0]) == "jaxtyped":
+                return any(k.arg == "typechecker" and norm(k.value) == "typechecker" for k in p_.keywords) and len(p_.keywords) == 1
+    return False
 
 
 # ------------------------------------------------------------------------ C07.5
